@@ -348,6 +348,10 @@ impl FormatString {
 }
 
 fn get_starting_point(file_info: &WalkEntry) -> &Path {
+    // As it was given (a trailing slash or "/." is part of it), when the walk recorded it.
+    if let Some(starting_point) = file_info.starting_point() {
+        return starting_point;
+    }
     file_info
         .path()
         .ancestors()
